@@ -1905,6 +1905,8 @@ def eval_node(ctx: Ctx, node: onnx.NodeProto, scope: Scope):
             ctx.cur_node = node
             try:
                 outs = impl(ctx, ins, at)
+            except S.ShapeMismatch as e:
+                raise ModelInvalid(f"{node.op_type}: {e}")
             except (ValueError, IndexError, KeyError, TypeError, AttributeError) as e:
                 raise NotEncodable(f"onnx op {node.op_type}: {type(e).__name__}: {e}")
     for name, v in zip(node.output, outs):
